@@ -60,6 +60,7 @@ import (
 	"time"
 
 	dbi "github.com/tinode/chat/server/db"
+	"github.com/tinode/chat/server/store"
 	t "github.com/tinode/chat/server/store/types"
 	kit "github.com/tinode/chat/server/zzverifkit"
 	"pgregory.net/rapid"
@@ -124,6 +125,7 @@ func c04sNormalized(raw [][2]int) []t.Range {
 type c04sTok struct {
 	K byte // w word, n number, o comparison operator, ( ) , s string literal, x anything else
 	S string
+	Q bool // w only: a quoted identifier (`from`, "from"): never a keyword
 }
 
 func c04sLex(sql string) []c04sTok {
@@ -156,16 +158,16 @@ func c04sLex(sql string) []c04sTok {
 			if j >= len(sql) {
 				j = len(sql) - 1
 			}
-			out = append(out, c04sTok{'s', sql[i : j+1]})
+			out = append(out, c04sTok{K: 's', S: sql[i : j+1]})
 			i = j + 1
 		case c == '`' || c == '"':
 			// quoted identifier
 			j := strings.IndexByte(sql[i+1:], c)
 			if j < 0 {
-				out = append(out, c04sTok{'x', sql[i:]})
+				out = append(out, c04sTok{K: 'x', S: sql[i:]})
 				return out
 			}
-			out = append(out, c04sTok{'w', sql[i+1 : i+1+j]})
+			out = append(out, c04sTok{K: 'w', S: sql[i+1 : i+1+j], Q: true})
 			i += j + 2
 		case c >= '0' && c <= '9':
 			j := i
@@ -177,9 +179,9 @@ func c04sLex(sql string) []c04sTok {
 				for j < len(sql) && isW(sql[j]) {
 					j++
 				}
-				out = append(out, c04sTok{'x', sql[i:j]})
+				out = append(out, c04sTok{K: 'x', S: sql[i:j]})
 			} else {
-				out = append(out, c04sTok{'n', sql[i:j]})
+				out = append(out, c04sTok{K: 'n', S: sql[i:j]})
 			}
 			i = j
 		case isW(c):
@@ -187,27 +189,27 @@ func c04sLex(sql string) []c04sTok {
 			for j < len(sql) && isW(sql[j]) {
 				j++
 			}
-			out = append(out, c04sTok{'w', sql[i:j]})
+			out = append(out, c04sTok{K: 'w', S: sql[i:j]})
 			i = j
 		case c == '(' || c == ')' || c == ',':
-			out = append(out, c04sTok{c, string(c)})
+			out = append(out, c04sTok{K: c, S: string(c)})
 			i++
 		case c == '<' || c == '>' || c == '=' || c == '!':
 			j := i + 1
 			for j < len(sql) && (sql[j] == '<' || sql[j] == '>' || sql[j] == '=') {
 				j++
 			}
-			out = append(out, c04sTok{'o', sql[i:j]})
+			out = append(out, c04sTok{K: 'o', S: sql[i:j]})
 			i = j
 		default:
-			out = append(out, c04sTok{'x', string(c)})
+			out = append(out, c04sTok{K: 'x', S: string(c)})
 			i++
 		}
 	}
 	return out
 }
 
-func (k c04sTok) word(w string) bool { return k.K == 'w' && strings.EqualFold(k.S, w) }
+func (k c04sTok) word(w string) bool { return k.K == 'w' && !k.Q && strings.EqualFold(k.S, w) }
 
 // c04sWhereToks returns the tokens of the (first top-level) WHERE clause, cut at ORDER BY /
 // GROUP BY / LIMIT / RETURNING / FOR.
@@ -460,7 +462,7 @@ func c04sInsertRow(sqlText string) (table string, row map[string]c04sTok, ok boo
 			continue
 		}
 		if v, n, isInt := c04sInt(toks, i); isInt {
-			vals = append(vals, c04sTok{'n', strconv.Itoa(v)})
+			vals = append(vals, c04sTok{K: 'n', S: strconv.Itoa(v)})
 			i += n
 			continue
 		}
@@ -475,6 +477,698 @@ func c04sInsertRow(sqlText string) (table string, row map[string]c04sTok, ok boo
 		row[c] = vals[j]
 	}
 	return table, row, true
+}
+
+// ------------------------------------------------------------------ SQL row evaluator
+//
+// The evaluator above answers "which values of ONE column pass" and only for a conjunction. The
+// row evaluator decides whether the WHERE clause of a SELECT selects a given ROW (column -> value):
+// a recursive-descent parser for
+//
+//	expr    := and { OR and }            and := not { AND not }        not := NOT not | pred
+//	pred    := '(' expr ')' | operand cmp operand | operand [NOT] BETWEEN operand AND operand
+//	           | operand [NOT] IN '(' operand {',' operand} ')' | operand IS [NOT] NULL
+//	operand := column | [+-]integer | 'string' | NULL        cmp := = <> != < <= > >=
+//
+// with SQL's precedence (NOT > AND > OR) and SQL's three-valued logic (a comparison with NULL is
+// UNKNOWN; a row is selected only when the clause is TRUE). Columns may carry an alias prefix and
+// quotes (m.seqid, m.`from`, "m"."from"); the prefix is resolved through the FROM clause (table
+// [AS alias], joins; the ON conditions are skipped, not evaluated). Numbers compare numerically, also
+// when one or both sides are written as strings ('123', PostgreSQL); strings compare for (in)equality
+// only. Everything else — arithmetic, functions, casts, subqueries, placeholders, LIKE, a column
+// the row does not have, a number against a non-numeric string, strings that differ only in case
+// or trailing blanks (collation) — is an error: the statement is "not understood" and not judged.
+
+type c04sVal struct {
+	Null bool
+	Num  bool
+	N    int64
+	S    string
+}
+
+func c04sNumV(n int64) c04sVal  { return c04sVal{Num: true, N: n} }
+func c04sStrV(s string) c04sVal { return c04sVal{S: s} }
+
+var c04sNullV = c04sVal{Null: true}
+
+func (v c04sVal) num() (int64, bool) {
+	if v.Null {
+		return 0, false
+	}
+	if v.Num {
+		return v.N, true
+	}
+	n, err := strconv.ParseInt(strings.TrimSpace(v.S), 10, 64)
+	return n, err == nil
+}
+
+func (v c04sVal) String() string {
+	switch {
+	case v.Null:
+		return "NULL"
+	case v.Num:
+		return strconv.FormatInt(v.N, 10)
+	}
+	return "'" + v.S + "'"
+}
+
+// c04sRow: "table.column" (lower case; the table's name, not its alias) -> value
+type c04sRow map[string]c04sVal
+
+// SQL truth values, ordered so that AND = min, OR = max, NOT x = 2 - x
+const (
+	c04sFalse int8 = iota
+	c04sUnknown
+	c04sTrue
+)
+
+type c04sExpr func(r c04sRow) (int8, error)
+type c04sOpnd func(r c04sRow) (c04sVal, error)
+
+func c04sBool(b bool) int8 {
+	if b {
+		return c04sTrue
+	}
+	return c04sFalse
+}
+
+func c04sCompare(op string, a, b c04sVal) (int8, error) {
+	switch op {
+	case "=", "<>", "!=", "<", "<=", ">", ">=":
+	default:
+		return 0, fmt.Errorf("operator %q", op)
+	}
+	if a.Null || b.Null {
+		return c04sUnknown, nil
+	}
+	an, aok := a.num()
+	bn, bok := b.num()
+	c := 0
+	switch {
+	case aok && bok:
+		switch {
+		case an < bn:
+			c = -1
+		case an > bn:
+			c = 1
+		}
+	case a.Num || b.Num:
+		return 0, fmt.Errorf("number compared with the non-numeric string %s %s %s (implicit conversion)", a, op, b)
+	default:
+		if op != "=" && op != "<>" && op != "!=" {
+			return 0, fmt.Errorf("strings ordered with %s (collation)", op)
+		}
+		if a.S != b.S {
+			if strings.EqualFold(strings.TrimRight(a.S, " "), strings.TrimRight(b.S, " ")) {
+				return 0, fmt.Errorf("strings %s and %s differ in case or trailing blanks only (collation)", a, b)
+			}
+			c = 1
+		}
+	}
+	switch op {
+	case "=":
+		return c04sBool(c == 0), nil
+	case "<>", "!=":
+		return c04sBool(c != 0), nil
+	case "<":
+		return c04sBool(c < 0), nil
+	case "<=":
+		return c04sBool(c <= 0), nil
+	case ">":
+		return c04sBool(c > 0), nil
+	}
+	return c04sBool(c >= 0), nil
+}
+
+type c04sParser struct {
+	toks []c04sTok
+	i    int
+	tabs map[string]string // alias (the table's name when it has none) -> table, lower case
+}
+
+func (p *c04sParser) peek() c04sTok {
+	if p.i < len(p.toks) {
+		return p.toks[p.i]
+	}
+	return c04sTok{}
+}
+
+func (p *c04sParser) kw(w string) bool {
+	if p.peek().word(w) {
+		p.i++
+		return true
+	}
+	return false
+}
+
+func (p *c04sParser) here() string {
+	if p.i >= len(p.toks) {
+		return "the end of the clause"
+	}
+	return fmt.Sprintf("%q (token %d)", p.toks[p.i].S, p.i+1)
+}
+
+func (p *c04sParser) parseOr() (c04sExpr, error) {
+	l, err := p.parseAnd()
+	if err != nil {
+		return nil, err
+	}
+	for p.kw("OR") {
+		r, err := p.parseAnd()
+		if err != nil {
+			return nil, err
+		}
+		a, b := l, r
+		l = func(row c04sRow) (int8, error) { // both sides always evaluated: an error never depends on the row
+			x, err := a(row)
+			if err != nil {
+				return 0, err
+			}
+			y, err := b(row)
+			if err != nil {
+				return 0, err
+			}
+			return max(x, y), nil
+		}
+	}
+	return l, nil
+}
+
+func (p *c04sParser) parseAnd() (c04sExpr, error) {
+	l, err := p.parseNot()
+	if err != nil {
+		return nil, err
+	}
+	for p.kw("AND") {
+		r, err := p.parseNot()
+		if err != nil {
+			return nil, err
+		}
+		a, b := l, r
+		l = func(row c04sRow) (int8, error) {
+			x, err := a(row)
+			if err != nil {
+				return 0, err
+			}
+			y, err := b(row)
+			if err != nil {
+				return 0, err
+			}
+			return min(x, y), nil
+		}
+	}
+	return l, nil
+}
+
+func (p *c04sParser) parseNot() (c04sExpr, error) {
+	if p.kw("NOT") {
+		e, err := p.parseNot()
+		if err != nil {
+			return nil, err
+		}
+		return func(row c04sRow) (int8, error) {
+			x, err := e(row)
+			return 2 - x, err
+		}, nil
+	}
+	return p.parsePred()
+}
+
+func c04sNegate(e c04sExpr, neg bool) c04sExpr {
+	if !neg {
+		return e
+	}
+	return func(row c04sRow) (int8, error) {
+		x, err := e(row)
+		return 2 - x, err
+	}
+}
+
+func (p *c04sParser) parsePred() (c04sExpr, error) {
+	if p.peek().K == '(' {
+		p.i++
+		e, err := p.parseOr()
+		if err != nil {
+			return nil, err
+		}
+		if p.peek().K != ')' {
+			return nil, fmt.Errorf("')' expected at %s", p.here())
+		}
+		p.i++
+		if nx := p.peek(); nx.K == 'o' || nx.K == 'x' || nx.word("BETWEEN") || nx.word("IN") || nx.word("IS") || nx.word("LIKE") {
+			return nil, fmt.Errorf("a parenthesised operand before %s", p.here())
+		}
+		return e, nil
+	}
+	a, err := p.parseOperand()
+	if err != nil {
+		return nil, err
+	}
+	nx := p.peek()
+	switch {
+	case nx.K == 'o':
+		op := nx.S
+		p.i++
+		b, err := p.parseOperand()
+		if err != nil {
+			return nil, err
+		}
+		if _, err := c04sCompare(op, c04sNullV, c04sNullV); err != nil {
+			return nil, err
+		}
+		return func(row c04sRow) (int8, error) {
+			x, err := a(row)
+			if err != nil {
+				return 0, err
+			}
+			y, err := b(row)
+			if err != nil {
+				return 0, err
+			}
+			return c04sCompare(op, x, y)
+		}, nil
+	case nx.word("IS"):
+		p.i++
+		neg := p.kw("NOT")
+		if !p.kw("NULL") {
+			return nil, fmt.Errorf("IS [NOT] NULL expected at %s", p.here())
+		}
+		return func(row c04sRow) (int8, error) { // never UNKNOWN
+			x, err := a(row)
+			if err != nil {
+				return 0, err
+			}
+			return c04sBool(x.Null != neg), nil
+		}, nil
+	}
+	neg := p.kw("NOT")
+	switch {
+	case p.kw("BETWEEN"):
+		lo, err := p.parseOperand()
+		if err != nil {
+			return nil, err
+		}
+		if !p.kw("AND") {
+			return nil, fmt.Errorf("the AND of BETWEEN expected at %s", p.here())
+		}
+		hi, err := p.parseOperand()
+		if err != nil {
+			return nil, err
+		}
+		return c04sNegate(func(row c04sRow) (int8, error) { // both ends inclusive
+			x, err := a(row)
+			if err != nil {
+				return 0, err
+			}
+			l, err := lo(row)
+			if err != nil {
+				return 0, err
+			}
+			h, err := hi(row)
+			if err != nil {
+				return 0, err
+			}
+			ge, err := c04sCompare(">=", x, l)
+			if err != nil {
+				return 0, err
+			}
+			le, err := c04sCompare("<=", x, h)
+			if err != nil {
+				return 0, err
+			}
+			return min(ge, le), nil
+		}, neg), nil
+	case p.kw("IN"):
+		if p.peek().K != '(' {
+			return nil, fmt.Errorf("'(' expected at %s", p.here())
+		}
+		p.i++
+		var list []c04sOpnd
+		for {
+			v, err := p.parseOperand()
+			if err != nil {
+				return nil, err
+			}
+			list = append(list, v)
+			if p.peek().K == ',' {
+				p.i++
+				continue
+			}
+			break
+		}
+		if p.peek().K != ')' {
+			return nil, fmt.Errorf("')' of the IN list expected at %s", p.here())
+		}
+		p.i++
+		return c04sNegate(func(row c04sRow) (int8, error) {
+			x, err := a(row)
+			if err != nil {
+				return 0, err
+			}
+			res := c04sFalse
+			for _, it := range list {
+				y, err := it(row)
+				if err != nil {
+					return 0, err
+				}
+				eq, err := c04sCompare("=", x, y)
+				if err != nil {
+					return 0, err
+				}
+				res = max(res, eq)
+			}
+			return res, nil
+		}, neg), nil
+	}
+	return nil, fmt.Errorf("a comparison, BETWEEN, IN or IS NULL expected at %s", p.here())
+}
+
+var c04sReserved = map[string]bool{"and": true, "or": true, "not": true, "between": true, "in": true, "is": true, "like": true,
+	"select": true, "from": true, "where": true, "exists": true, "case": true, "when": true, "then": true, "else": true, "end": true,
+	"true": true, "false": true, "any": true, "all": true, "some": true, "interval": true, "as": true, "on": true, "join": true,
+	"left": true, "right": true, "inner": true, "outer": true, "cross": true, "full": true, "natural": true, "using": true,
+	"order": true, "group": true, "limit": true, "having": true, "for": true, "returning": true, "union": true, "set": true}
+
+func (p *c04sParser) parseOperand() (c04sOpnd, error) {
+	k := p.peek()
+	constant := func(v c04sVal) c04sOpnd { return func(c04sRow) (c04sVal, error) { return v, nil } }
+	switch {
+	case k.K == 's':
+		if len(k.S) < 2 || k.S[len(k.S)-1] != '\'' {
+			return nil, fmt.Errorf("unterminated string %s", k.S)
+		}
+		body := k.S[1 : len(k.S)-1]
+		if strings.Contains(body, `\`) {
+			return nil, fmt.Errorf("backslash in the string literal %s (an escape for MySQL, a character for PostgreSQL)", k.S)
+		}
+		p.i++
+		return constant(c04sStrV(strings.ReplaceAll(body, "''", "'"))), nil
+	case k.K == 'n' || (k.K == 'x' && (k.S == "-" || k.S == "+") && p.i+1 < len(p.toks) && p.toks[p.i+1].K == 'n'):
+		txt := k.S
+		p.i++
+		if k.K == 'x' {
+			txt = strings.TrimPrefix(k.S, "+") + p.toks[p.i].S
+			p.i++
+		}
+		n, err := strconv.ParseInt(txt, 10, 64)
+		if err != nil {
+			return nil, fmt.Errorf("integer literal %s: %v", txt, err)
+		}
+		return constant(c04sNumV(n)), nil
+	case k.word("NULL"):
+		p.i++
+		return constant(c04sNullV), nil
+	case k.K == 'w':
+		if !k.Q && c04sReserved[strings.ToLower(k.S)] {
+			return nil, fmt.Errorf("an operand expected at %s", p.here())
+		}
+		name := k.S
+		p.i++
+		for p.peek().K == 'w' && (strings.HasSuffix(name, ".") || strings.HasPrefix(p.peek().S, ".")) { // m.`from`, "m"."from"
+			name += p.peek().S
+			p.i++
+		}
+		return p.column(name)
+	}
+	return nil, fmt.Errorf("an operand expected at %s", p.here())
+}
+
+func (p *c04sParser) column(name string) (c04sOpnd, error) {
+	parts := strings.Split(strings.ToLower(name), ".")
+	switch len(parts) {
+	case 1:
+		col := parts[0]
+		var tables []string
+		seen := map[string]bool{}
+		for _, tb := range p.tabs {
+			if !seen[tb] {
+				seen[tb] = true
+				tables = append(tables, tb)
+			}
+		}
+		return func(r c04sRow) (c04sVal, error) {
+			n := 0
+			var val c04sVal
+			for _, tb := range tables {
+				if v, ok := r[tb+"."+col]; ok {
+					val = v
+					n++
+				}
+			}
+			if n != 1 {
+				return val, fmt.Errorf("column %s: found in %d of the tables of the FROM clause", name, n)
+			}
+			return val, nil
+		}, nil
+	case 2:
+		tb, ok := p.tabs[parts[0]]
+		if !ok {
+			return nil, fmt.Errorf("column %s: no table or alias %s in the FROM clause", name, parts[0])
+		}
+		key := tb + "." + parts[1]
+		return func(r c04sRow) (c04sVal, error) {
+			v, ok := r[key]
+			if !ok {
+				return v, fmt.Errorf("column %s (%s) is not modelled", name, key)
+			}
+			return v, nil
+		}, nil
+	}
+	return nil, fmt.Errorf("column reference %s", name)
+}
+
+// c04sFromTables reads the FROM clause of a SELECT: alias -> table. The ON conditions of joins are
+// skipped. A subquery, NATURAL / USING joins, or a table used twice are errors.
+func c04sFromTables(toks []c04sTok) (map[string]string, error) {
+	depth, i := 0, -1
+	for j, k := range toks {
+		if k.K == '(' {
+			depth++
+		} else if k.K == ')' {
+			depth--
+		} else if depth == 0 && k.word("FROM") {
+			i = j + 1
+			break
+		}
+	}
+	if i < 0 {
+		return nil, fmt.Errorf("no FROM clause")
+	}
+	stop := func(k c04sTok) bool {
+		return k.word("WHERE") || k.word("ORDER") || k.word("GROUP") || k.word("LIMIT") || k.word("HAVING") || k.word("FOR") || k.word("RETURNING") || k.word("UNION")
+	}
+	joinWord := func(k c04sTok) bool {
+		return k.word("JOIN") || k.word("LEFT") || k.word("RIGHT") || k.word("INNER") || k.word("OUTER") || k.word("CROSS") || k.word("FULL")
+	}
+	tabs, used := map[string]string{}, map[string]bool{}
+	for {
+		if i >= len(toks) || toks[i].K != 'w' || (!toks[i].Q && c04sReserved[strings.ToLower(toks[i].S)]) {
+			return nil, fmt.Errorf("FROM clause: a table name expected at token %d", i+1)
+		}
+		tb := strings.ToLower(toks[i].S)
+		i++
+		alias := tb
+		if i < len(toks) && toks[i].word("AS") {
+			i++
+			if i >= len(toks) || toks[i].K != 'w' {
+				return nil, fmt.Errorf("FROM clause: an alias expected after AS")
+			}
+			alias = strings.ToLower(toks[i].S)
+			i++
+		} else if i < len(toks) && toks[i].K == 'w' && (toks[i].Q || !c04sReserved[strings.ToLower(toks[i].S)]) {
+			alias = strings.ToLower(toks[i].S)
+			i++
+		}
+		if _, dup := tabs[alias]; dup || used[tb] || strings.Contains(tb, ".") || strings.Contains(alias, ".") {
+			return nil, fmt.Errorf("FROM clause: table %s / alias %s used twice or qualified", tb, alias)
+		}
+		tabs[alias], used[tb] = tb, true
+		if i < len(toks) && toks[i].word("ON") {
+			d := 0
+			for i++; i < len(toks); i++ {
+				k := toks[i]
+				if k.K == '(' {
+					d++
+				} else if k.K == ')' {
+					d--
+				} else if d == 0 && (stop(k) || joinWord(k) || k.K == ',') {
+					break
+				}
+			}
+		}
+		if i >= len(toks) || stop(toks[i]) {
+			return tabs, nil
+		}
+		if toks[i].K == ',' {
+			i++
+			continue
+		}
+		join := false
+		for i < len(toks) && joinWord(toks[i]) && !join {
+			join = toks[i].word("JOIN")
+			i++
+		}
+		if !join {
+			return nil, fmt.Errorf("FROM clause: unexpected %q", toks[min(i, len(toks)-1)].S)
+		}
+	}
+}
+
+// c04sSelectRows evaluates the WHERE clause of the SELECT sqlText on every row. An error means
+// "not understood": nothing may be concluded from the statement.
+func c04sSelectRows(sqlText string, rows []c04sRow) ([]bool, error) {
+	toks := c04sLex(sqlText)
+	if len(toks) == 0 || !toks[0].word("SELECT") {
+		return nil, fmt.Errorf("not a SELECT")
+	}
+	tabs, err := c04sFromTables(toks)
+	if err != nil {
+		return nil, err
+	}
+	sel := make([]bool, len(rows))
+	wt, has := c04sWhereToks(sqlText)
+	if !has {
+		for i := range sel {
+			sel[i] = true
+		}
+		return sel, nil
+	}
+	p := &c04sParser{toks: wt, tabs: tabs}
+	e, err := p.parseOr()
+	if err != nil {
+		return nil, err
+	}
+	if p.i != len(wt) {
+		return nil, fmt.Errorf("unexpected %s", p.here())
+	}
+	for i, r := range rows {
+		v, err := e(r)
+		if err != nil {
+			return nil, err
+		}
+		sel[i] = v == c04sTrue
+	}
+	return sel, nil
+}
+
+// c04sSynRow: one row of a synthetic table together with the verdict the statement of C04 demands.
+type c04sSynRow struct {
+	Row    c04sRow
+	Label  string
+	Why    []string // why the row must NOT be selected (empty: it must be), most telling reason first
+	Window bool     // the id of the row lies in since <= id < before
+}
+
+// c04sOtherTopic: a second topic name that no collation can confuse with topic.
+func c04sOtherTopic(topic string) string {
+	if strings.EqualFold(strings.TrimSpace(topic), "grpOther7x") {
+		return "grpOther8y"
+	}
+	return "grpOther7x"
+}
+
+// c04sDellogRows: the synthetic deletion log for a query of `topic` by the user whose number is uid:
+// {queried topic, another topic} x {deleted for all (0), for the user, for another user} x delete ids.
+func c04sDellogRows(topic string, uid, otherUid int64, want func(int) bool) []c04sSynRow {
+	var out []c04sSynRow
+	for ti, tp := range []string{topic, c04sOtherTopic(topic)} {
+		for di, df := range []int64{0, uid, otherUid} {
+			for _, id := range c04sDomain {
+				sr := c04sSynRow{Row: c04sRow{
+					"dellog.topic": c04sStrV(tp), "dellog.deletedfor": c04sNumV(df), "dellog.delid": c04sNumV(int64(id)),
+					"dellog.low": c04sNumV(3), "dellog.hi": c04sNumV(5),
+				}, Window: want(id)}
+				sr.Label = fmt.Sprintf("{topic='%s' (%s), deletedfor=%d (%s), delid=%d}", tp, []string{"the queried topic", "another topic"}[ti],
+					df, []string{"all users", "the querying user", "another user"}[di], id)
+				if ti == 1 {
+					sr.Why = append(sr.Why, "other-topic")
+				}
+				if di == 2 {
+					sr.Why = append(sr.Why, "other-user")
+				}
+				if !sr.Window {
+					sr.Why = append(sr.Why, "window")
+				}
+				out = append(out, sr)
+			}
+		}
+	}
+	return out
+}
+
+// c04sHistoryRows: the synthetic messages table, already joined (LEFT JOIN dellog AS d ON <the user's
+// soft deletion covering the message>): {queried topic, another topic} x {live, hard-deleted} x
+// {no soft deletion of the user (d.* NULL), one} x message ids. The ON clause itself is not evaluated.
+func c04sHistoryRows(topic string, uid int64, want func(int) bool) []c04sSynRow {
+	var out []c04sSynRow
+	for ti, tp := range []string{topic, c04sOtherTopic(topic)} {
+		for hard := 0; hard < 2; hard++ {
+			for soft := 0; soft < 2; soft++ {
+				for _, id := range c04sDomain {
+					r := c04sRow{"messages.topic": c04sStrV(tp), "messages.seqid": c04sNumV(int64(id)),
+						"messages.delid": c04sNumV(0), "messages.deletedat": c04sNullV,
+						"dellog.topic": c04sNullV, "dellog.deletedfor": c04sNullV, "dellog.delid": c04sNullV, "dellog.low": c04sNullV, "dellog.hi": c04sNullV}
+					state := "live"
+					if hard == 1 {
+						r["messages.delid"], r["messages.deletedat"] = c04sNumV(3), c04sStrV("2020-01-02 03:04:05.000")
+						state = "hard-deleted, delid=3"
+					}
+					if soft == 1 {
+						r["dellog.topic"], r["dellog.deletedfor"], r["dellog.delid"] = c04sStrV(tp), c04sNumV(uid), c04sNumV(2)
+						r["dellog.low"], r["dellog.hi"] = c04sNumV(int64(id)), c04sNumV(int64(id)+1)
+						state += ", soft-deleted for the querying user"
+					}
+					sr := c04sSynRow{Row: r, Window: want(id)}
+					sr.Label = fmt.Sprintf("{topic='%s' (%s), seqid=%d, %s}", tp, []string{"the queried topic", "another topic"}[ti], id, state)
+					if ti == 1 {
+						sr.Why = append(sr.Why, "other-topic")
+					}
+					if hard == 1 {
+						sr.Why = append(sr.Why, "shows-hard-deleted")
+					}
+					if soft == 1 {
+						sr.Why = append(sr.Why, "shows-soft-deleted")
+					}
+					if !sr.Window {
+						sr.Why = append(sr.Why, "window")
+					}
+					out = append(out, sr)
+				}
+			}
+		}
+	}
+	return out
+}
+
+// c04sJudgeRows compares the selection of a statement with the demanded one. extraWhy: the reason of
+// the most telling wrongly selected row (fewest reasons against it; then the order of Why);
+// examples: up to 4 labels of each kind.
+func c04sJudgeRows(rows []c04sSynRow, sel []bool) (extraWhy string, extra, missing []string, nExtra, nMissing int) {
+	rank := map[string]int{"other-topic": 0, "other-user": 1, "shows-hard-deleted": 2, "shows-soft-deleted": 3, "window": 4}
+	best := -1
+	for i, sr := range rows {
+		switch {
+		case sel[i] && len(sr.Why) > 0:
+			nExtra++
+			if best < 0 || len(sr.Why) < len(rows[best].Why) || (len(sr.Why) == len(rows[best].Why) && rank[sr.Why[0]] < rank[rows[best].Why[0]]) {
+				best = i
+			}
+		case !sel[i] && len(sr.Why) == 0:
+			nMissing++
+			if len(missing) < 4 {
+				missing = append(missing, sr.Label)
+			}
+		}
+	}
+	if best >= 0 {
+		extraWhy = rows[best].Why[0]
+		for i, sr := range rows {
+			if sel[i] && len(sr.Why) == len(rows[best].Why) && sr.Why[0] == extraWhy && len(extra) < 4 {
+				extra = append(extra, sr.Label)
+			}
+		}
+	}
+	return
 }
 
 // ------------------------------------------------------------------ one run
@@ -824,21 +1518,69 @@ func c04sExec(c c04sCase) kit.Outcome {
 			o.Classes = append(o.Classes, fmt.Sprintf("selects-on-%s:%d", strings.ToLower(table), len(sel)))
 			understood = false
 		}
+		// the synthetic table the WHERE clause is evaluated on (row evaluator)
+		uidNum, otherNum := store.DecodeUid(t.Uid(c.U)), store.DecodeUid(t.Uid(c.U+100))
+		var syn []c04sSynRow
+		if uidNum == 0 || otherNum == 0 || uidNum == otherNum {
+			o.Classes = append(o.Classes, c.Op+"-rows-not-judged:user-number") // replay files only (u = 0)
+		} else if c.Op == "getdel" {
+			syn = c04sDellogRows(c.Topic, uidNum, otherNum, want)
+		} else {
+			syn = c04sHistoryRows(c.Topic, uidNum, want)
+		}
 		for _, e := range sel {
-			known, _ := c04sSelectsCol(e.Text, col, 1)
-			if !known {
+			rowsJudged := false
+			if syn != nil {
+				rows := make([]c04sRow, len(syn))
+				for i := range syn {
+					rows[i] = syn[i].Row
+				}
+				picked, err := c04sSelectRows(e.Text, rows)
+				if err != nil {
+					o.Classes = append(o.Classes, c.Op+"-rows-not-understood")
+					if os.Getenv("C04S_SHOW") != "" {
+						fmt.Printf("    ROWS NOT UNDERSTOOD (%v): %s\n", err, e.Text)
+					}
+				} else {
+					rowsJudged = true
+					o.Classes = append(o.Classes, c.Op+"-rows-judged")
+					why, extra, missing, nExtra, nMissing := c04sJudgeRows(syn, picked)
+					tbl, demanded, prefix := "dellog", fmt.Sprintf("topic = the queried one, deletedfor = 0 or the querying user (%d), since <= delid < before", uidNum), "sql-dellog-query-"
+					if c.Op == "getall" {
+						tbl, demanded, prefix = "messages (joined with the user's soft deletions)", "topic = the queried one, not hard-deleted (delid=0), not soft-deleted for the querying user, since <= seqid < before", "sql-history-"
+					}
+					if nExtra > 0 {
+						sig := prefix + why
+						if why == "window" {
+							sig = sigExtra
+						}
+						o.Viol = kit.V(sig, "%s: evaluated on a synthetic table %s, the WHERE clause selects %d row(s) that must not be in the answer, e.g. %s; demanded: %s: %s",
+							what, tbl, nExtra, strings.Join(extra, " "), demanded, e.Text)
+						return o
+					}
+					if nMissing > 0 {
+						o.Viol = kit.V(sigMissing, "%s: evaluated on a synthetic table %s, the WHERE clause does not select %d row(s) that belong to the answer, e.g. %s; demanded: %s: %s",
+							what, tbl, nMissing, strings.Join(missing, " "), demanded, e.Text)
+						return o
+					}
+				}
+			}
+			// the one-column evaluator (what was judged before the row evaluator existed; it still judges
+			// a statement whose WHERE clause names a column the synthetic rows do not model)
+			if known, _ := c04sSelectsCol(e.Text, col, 1); known {
+				o.Classes = append(o.Classes, c.Op+"-where:"+c04sPredClass(e.Text, col))
+				extra, missing := c04sDiff(func(id int) bool { _, s := c04sSelectsCol(e.Text, col, id); return s }, want, c04sDomain)
+				if len(extra) > 0 {
+					o.Viol = kit.V(sigExtra, "%s: the query selects %s values %v outside since <= id < before: %s", what, col, extra, e.Text)
+					return o
+				}
+				if len(missing) > 0 {
+					o.Viol = kit.V(sigMissing, "%s: the query does not select %s values %v although since <= id < before: %s", what, col, missing, e.Text)
+					return o
+				}
+			} else if !rowsJudged {
 				notUnderstood(e.Text)
 				continue
-			}
-			o.Classes = append(o.Classes, c.Op+"-where:"+c04sPredClass(e.Text, col))
-			extra, missing := c04sDiff(func(id int) bool { _, s := c04sSelectsCol(e.Text, col, id); return s }, want, c04sDomain)
-			if len(extra) > 0 {
-				o.Viol = kit.V(sigExtra, "%s: the query selects %s values %v outside since <= id < before: %s", what, col, extra, e.Text)
-				return o
-			}
-			if len(missing) > 0 {
-				o.Viol = kit.V(sigMissing, "%s: the query does not select %s values %v although since <= id < before: %s", what, col, missing, e.Text)
-				return o
 			}
 			if c.Op == "getall" {
 				lim, ok := c04sLimit(e.Text)
@@ -1000,6 +1742,9 @@ func c04sSelfCheck() error {
 			return fmt.Errorf("evaluator self-check: %q on %s: known=%v selected=%v, expected known=%v selected=%v", rw.sql, rw.col, known, got, rw.known, rw.want)
 		}
 	}
+	if err := c04sRowSelfCheck(); err != nil {
+		return err
+	}
 	if v, ok := c04sLimit("SELECT a FROM t WHERE x=1 ORDER BY y DESC LIMIT  24 "); !ok || v != 24 {
 		return fmt.Errorf("evaluator self-check: LIMIT literal read as %d, %v", v, ok)
 	}
@@ -1009,6 +1754,207 @@ func c04sSelfCheck() error {
 	tbl, m, ok := c04sInsertRow("EXECUTE INSERT INTO dellog(topic,deletedfor,delid,low,hi) VALUES( 'a,b)' , 0 , 2 , 7 , 11 )")
 	if !ok || tbl != "dellog" || m["low"].S != "7" || m["hi"].S != "11" || m["low"].K != 'n' {
 		return fmt.Errorf("evaluator self-check: INSERT row read as %v %v %v", tbl, m, ok)
+	}
+	return nil
+}
+
+// c04sRowSelfCheck pins the row evaluator: 18 dellog rows (topic t|o, deletedfor 0|7|-9, delid 1..3;
+// low=3, hi=5), written "t/7/2", and 4 joined history rows.
+func c04sRowSelfCheck() error {
+	var rows []c04sRow
+	var labels []string
+	for _, tp := range []string{"t", "o"} {
+		for _, df := range []int64{0, 7, -9} {
+			for id := int64(1); id <= 3; id++ {
+				rows = append(rows, c04sRow{"dellog.topic": c04sStrV(tp), "dellog.deletedfor": c04sNumV(df), "dellog.delid": c04sNumV(id),
+					"dellog.low": c04sNumV(3), "dellog.hi": c04sNumV(5), "dellog.note": c04sNullV})
+				labels = append(labels, fmt.Sprintf("%s/%d/%d", tp, df, id))
+			}
+		}
+	}
+	const all = "t/0/1 t/0/2 t/0/3 t/7/1 t/7/2 t/7/3 t/-9/1 t/-9/2 t/-9/3 o/0/1 o/0/2 o/0/3 o/7/1 o/7/2 o/7/3 o/-9/1 o/-9/2 o/-9/3"
+	type check struct {
+		sql  string
+		want string // selected labels; "?" = must not be understood
+	}
+	const pre = "SELECT topic,deletedfor,delid,low,hi FROM dellog "
+	checks := []check{
+		{pre + "WHERE topic='t' AND delid BETWEEN 2 AND 3 AND (deletedFor=0 OR deletedFor=7) ORDER BY delid LIMIT 5", "t/0/2 t/0/3 t/7/2 t/7/3"},
+		// the lost parentheses: AND binds tighter than OR
+		{pre + "WHERE topic='t' AND delid BETWEEN 2 AND 3 AND deletedfor=0 OR deletedfor=7 ORDER BY delid LIMIT 5", "t/0/2 t/0/3 t/7/1 t/7/2 t/7/3 o/7/1 o/7/2 o/7/3"},
+		{pre + "WHERE deletedfor=7 OR topic='t' AND delid BETWEEN 2 AND 3 AND deletedfor=0", "t/0/2 t/0/3 t/7/1 t/7/2 t/7/3 o/7/1 o/7/2 o/7/3"},
+		{pre + "WHERE topic= 't'  AND delid BETWEEN  '2'  AND  '3'  AND (deletedFor=0 OR deletedFor= '7' ) ORDER BY delid LIMIT  5 ", "t/0/2 t/0/3 t/7/2 t/7/3"},
+		{pre + "AS d WHERE d.`topic`='t' AND \"d\".\"delid\">=2 AND D.DelId<3 AND d.deletedfor IN (0, 7)", "t/0/2 t/7/2"},
+		{pre + "d WHERE d.topic='t' AND NOT d.delid<2 AND d.deletedfor NOT IN (-9)", "t/0/2 t/0/3 t/7/2 t/7/3"},
+		{pre + "WHERE NOT (topic='t' OR deletedfor=0) AND delid NOT BETWEEN 2 AND 3", "o/7/1 o/-9/1"},
+		{pre + "WHERE topic<>'t' AND deletedfor!=-9 AND 2<=delid", "o/0/2 o/0/3 o/7/2 o/7/3"},
+		{pre + "WHERE NOT topic='t' AND deletedfor=- 9 AND delid=+1", "o/-9/1"},
+		{pre + "WHERE topic='o' AND deletedfor=0 AND delid<=low-2", "?"},
+		{pre + "WHERE topic='it''s'", ""},
+		{pre + "WHERE note IS NULL AND delid=1 AND topic='t'", "t/0/1 t/7/1 t/-9/1"},
+		{pre + "WHERE note IS NOT NULL", ""},
+		{pre + "WHERE note=1 OR delid=3 AND topic='o'", "o/0/3 o/7/3 o/-9/3"}, // UNKNOWN OR TRUE
+		{pre + "WHERE NOT note=1", ""},                                        // NOT UNKNOWN
+		{pre + "WHERE NOT (note=1 AND delid=3)", "t/0/1 t/0/2 t/7/1 t/7/2 t/-9/1 t/-9/2 o/0/1 o/0/2 o/7/1 o/7/2 o/-9/1 o/-9/2"}, // NOT (UNKNOWN AND FALSE)
+		{pre + "WHERE delid IN (1, NULL) AND topic='t' AND deletedfor=0", "t/0/1"},
+		{pre + "WHERE delid NOT IN (1, NULL)", ""},
+		{pre + "WHERE low<hi AND hi BETWEEN low AND 5 AND delid=low", "t/0/3 t/7/3 t/-9/3 o/0/3 o/7/3 o/-9/3"},
+		{pre, all},
+		{pre + "ORDER BY delid", all},
+		{pre + "WHERE ((topic='t'))AND(delid=1)AND(deletedfor=7)", "t/7/1"},
+		{pre + "WHERE topic='t' AND delid=1 AND deletedfor=7 FOR UPDATE", "t/7/1"},
+		{pre + "WHERE topic=?", "?"},
+		{pre + "WHERE topic=$1", "?"},
+		{pre + "WHERE topic='t' AND delid BETWEEN 1 AND 5-3", "?"},
+		{pre + "WHERE topic='t' AND delid+0=1", "?"},
+		{pre + "WHERE topic='T'", "?"},
+		{pre + "WHERE topic='t '", "?"},
+		{pre + "WHERE topic>'a'", "?"},
+		{pre + "WHERE topic=0", "?"},
+		{pre + "WHERE topic LIKE 't%'", "?"},
+		{pre + "WHERE topic NOT LIKE 't%'", "?"},
+		{pre + `WHERE topic='t\'' OR delid=1`, "?"},
+		{pre + "WHERE delid=1::int", "?"},
+		{pre + "WHERE delid<=>1", "?"},
+		{pre + "WHERE delid=1.5", "?"},
+		{pre + "WHERE delid=99999999999999999999", "?"},
+		{pre + "WHERE id=1", "?"},
+		{pre + "WHERE x.delid=1", "?"},
+		{pre + "WHERE delid", "?"},
+		{pre + "WHERE (delid)=1", "?"},
+		{pre + "WHERE delid=1 AND", "?"},
+		{pre + "WHERE delid=1 OR OR delid=2", "?"},
+		{pre + "WHERE delid=1)", "?"},
+		{pre + "WHERE (delid=1", "?"},
+		{pre + "WHERE delid IN ()", "?"},
+		{pre + "WHERE delid IN (1,)", "?"},
+		{pre + "WHERE delid IN (SELECT 1)", "?"},
+		{pre + "WHERE EXISTS (SELECT 1)", "?"},
+		{pre + "WHERE delid=abs(1)", "?"},
+		{pre + "WHERE delid=1 UNION SELECT topic,deletedfor,delid,low,hi FROM dellog", "?"},
+		{pre + "NATURAL JOIN topics WHERE delid=1", "?"},
+		{pre + "JOIN topics USING (topic) WHERE delid=1", "?"},
+		{pre + "AS a, dellog AS b WHERE a.delid=1", "?"},
+		{"SELECT * FROM (SELECT * FROM dellog) AS d WHERE delid=1", "?"},
+		{"DELETE FROM dellog WHERE delid=1", "?"},
+	}
+	for _, ck := range checks {
+		sel, err := c04sSelectRows(ck.sql, rows)
+		if err != nil {
+			if ck.want != "?" {
+				return fmt.Errorf("row evaluator self-check: %q not understood (%v)", ck.sql, err)
+			}
+			continue
+		}
+		var got []string
+		for i, s := range sel {
+			if s {
+				got = append(got, labels[i])
+			}
+		}
+		if g := strings.Join(got, " "); g != ck.want {
+			return fmt.Errorf("row evaluator self-check: %q selects [%s], expected [%s]", ck.sql, g, ck.want)
+		}
+	}
+	// the history query: aliases, a quoted column named like a keyword in the select list, the join's ON clause skipped
+	const hist = "SELECT m.createdat,m.delid,m.seqid,m.topic,m.`from`,m.\"from\",m.content FROM messages AS m LEFT JOIN dellog AS d" +
+		" ON d.topic=m.topic AND m.seqid BETWEEN d.low AND d.hi-1 AND d.deletedfor=7 WHERE "
+	mk := func(topic string, delid int64, soft bool) c04sRow {
+		r := c04sRow{"messages.topic": c04sStrV(topic), "messages.seqid": c04sNumV(4), "messages.delid": c04sNumV(delid), "messages.deletedat": c04sNullV,
+			"dellog.topic": c04sNullV, "dellog.deletedfor": c04sNullV, "dellog.delid": c04sNullV}
+		if delid > 0 {
+			r["messages.deletedat"] = c04sStrV("2020-01-02 03:04:05.000")
+		}
+		if soft {
+			r["dellog.topic"], r["dellog.deletedfor"], r["dellog.delid"] = c04sStrV(topic), c04sNumV(7), c04sNumV(2)
+		}
+		return r
+	}
+	hrows := []c04sRow{mk("t", 0, false), mk("t", 3, false), mk("t", 0, true), mk("o", 0, false)}
+	for _, ck := range []check{
+		{hist + "m.delid=0 AND m.topic='t' AND m.seqid BETWEEN 2 AND 2147483647 AND d.deletedfor IS NULL ORDER BY m.seqid DESC LIMIT 24", "0"},
+		{hist + "m.delid=0 AND m.seqid BETWEEN 2 AND 2147483647 AND d.deletedfor IS NULL ORDER BY m.seqid DESC LIMIT 24", "0 3"},
+		{hist + "m.topic='t' AND m.seqid BETWEEN 2 AND 2147483647 AND d.deletedfor IS NULL", "0 1"},
+		{hist + "m.topic='t' AND m.seqid BETWEEN 2 AND 2147483647 AND m.delid=0", "0 2"},
+		{hist + "m.topic='t' AND m.seqid BETWEEN 2 AND 2147483647 AND m.delid=0 AND d.deletedfor<>7", ""}, // NULL<>7 is UNKNOWN
+		{hist + "m.topic='t' AND m.seqid BETWEEN 5 AND 2147483647 AND m.delid=0", ""},
+		{hist + "seqid=4 AND m.deletedat IS NULL AND d.topic IS NULL", "0 3"},
+		{hist + "topic='t'", "?"},        // ambiguous: messages.topic or dellog.topic
+		{hist + "delid=0", "?"},          // likewise
+		{hist + "m.`from`=7", "?"},       // not modelled
+		{hist + "messages.seqid=4", "?"}, // hidden by the alias
+	} {
+		sel, err := c04sSelectRows(ck.sql, hrows)
+		if err != nil {
+			if ck.want != "?" {
+				return fmt.Errorf("row evaluator self-check: %q not understood (%v)", ck.sql, err)
+			}
+			continue
+		}
+		var got []string
+		for i, s := range sel {
+			if s {
+				got = append(got, strconv.Itoa(i))
+			}
+		}
+		if g := strings.Join(got, " "); g != ck.want {
+			return fmt.Errorf("row evaluator self-check: %q selects rows [%s], expected [%s]", ck.sql, g, ck.want)
+		}
+	}
+	// the verdicts on the synthetic tables
+	want := func(id int) bool { return id >= 2 && id < 4 }
+	syn := c04sDellogRows("t", 7, 9, want)
+	for _, ck := range []struct {
+		where, why     string
+		extra, missing bool
+	}{
+		{"topic='t' AND delid BETWEEN 2 AND 3 AND (deletedfor=0 OR deletedfor=7)", "", false, false},
+		{"topic='t' AND delid BETWEEN 2 AND 3 AND deletedfor=0 OR deletedfor=7", "other-topic", true, false},
+		{"delid BETWEEN 2 AND 3 AND (deletedfor=0 OR deletedfor=7)", "other-topic", true, false},
+		{"topic='t' AND delid BETWEEN 2 AND 3", "other-user", true, false},
+		{"topic='t' AND delid BETWEEN 2 AND 4 AND (deletedfor=0 OR deletedfor=7)", "window", true, false},
+		{"topic='t' AND delid BETWEEN 2 AND 3 AND deletedfor=7", "", false, true},
+		{"topic='t' AND delid BETWEEN 2 AND 3 AND (deletedfor=0 OR deletedfor=9)", "other-user", true, true},
+	} {
+		rws := make([]c04sRow, len(syn))
+		for i := range syn {
+			rws[i] = syn[i].Row
+		}
+		sel, err := c04sSelectRows(pre+"WHERE "+ck.where, rws)
+		if err != nil {
+			return fmt.Errorf("row evaluator self-check: %q not understood (%v)", ck.where, err)
+		}
+		why, _, _, nx, nm := c04sJudgeRows(syn, sel)
+		if why != ck.why || (nx > 0) != ck.extra || (nm > 0) != ck.missing {
+			return fmt.Errorf("row evaluator self-check: %q judged why=%q extra=%d missing=%d, expected why=%q extra=%v missing=%v", ck.where, why, nx, nm, ck.why, ck.extra, ck.missing)
+		}
+	}
+	hsyn := c04sHistoryRows("t", 7, want)
+	for _, ck := range []struct {
+		where, why     string
+		extra, missing bool
+	}{
+		{"m.delid=0 AND m.topic='t' AND m.seqid BETWEEN 2 AND 3 AND d.deletedfor IS NULL", "", false, false},
+		{"m.deletedat IS NULL AND m.topic='t' AND m.seqid>=2 AND m.seqid<4 AND d.topic IS NULL", "", false, false},
+		{"m.delid=0 AND m.seqid BETWEEN 2 AND 3 AND d.deletedfor IS NULL", "other-topic", true, false},
+		{"m.topic='t' AND m.seqid BETWEEN 2 AND 3 AND d.deletedfor IS NULL", "shows-hard-deleted", true, false},
+		{"m.delid>0 AND m.topic='t' AND m.seqid BETWEEN 2 AND 3 AND d.deletedfor IS NULL", "shows-hard-deleted", true, true},
+		{"m.delid=0 AND m.topic='t' AND m.seqid BETWEEN 2 AND 3", "shows-soft-deleted", true, false},
+		{"m.delid=0 AND m.topic='t' AND m.seqid BETWEEN 1 AND 3 AND d.deletedfor IS NULL", "window", true, false},
+		{"m.delid=0 AND m.topic='t' AND m.seqid BETWEEN 2 AND 2 AND d.deletedfor IS NULL", "", false, true},
+	} {
+		rws := make([]c04sRow, len(hsyn))
+		for i := range hsyn {
+			rws[i] = hsyn[i].Row
+		}
+		sel, err := c04sSelectRows(hist+ck.where, rws)
+		if err != nil {
+			return fmt.Errorf("row evaluator self-check: %q not understood (%v)", ck.where, err)
+		}
+		why, _, _, nx, nm := c04sJudgeRows(hsyn, sel)
+		if why != ck.why || (nx > 0) != ck.extra || (nm > 0) != ck.missing {
+			return fmt.Errorf("row evaluator self-check: %q judged why=%q extra=%d missing=%d, expected why=%q extra=%v missing=%v", ck.where, why, nx, nm, ck.why, ck.extra, ck.missing)
+		}
 	}
 	return nil
 }
